@@ -14,7 +14,29 @@ func mustClause(kind, src string, props []string, line string) *Clause {
 	if err != nil {
 		panic(fmt.Sprintf("schema clause %q: %v", src, err))
 	}
-	return &Clause{Kind: kind, Props: props, Src: src, Expr: e, Line: line}
+	cl := &Clause{Kind: kind, Props: props, Src: src, Expr: e, Line: line}
+	// schema clauses carry stable names (obligation names must not depend on how many
+	// clauses the hand-written contract of the function happens to have)
+	if kind == "ensures" {
+		switch {
+		case line == "schema:lock":
+			cl.Name = "no_lock_held"
+		case line == "schema:err" && strings.Contains(src, "==> result"):
+			cl.Name = "failure_surfaces_as_error"
+		case line == "schema:err" && strings.HasPrefix(src, "old("):
+			cl.Name = "failure_flag_sticky"
+		case line == "schema:err":
+			cl.Name = "failure_flag_unchanged"
+		}
+	}
+	if line == "schema:err" && cl.Name != "" {
+		for _, gv := range []string{"wfailed", "cancelled"} {
+			if strings.Contains(src, gv) {
+				cl.Name += ":" + gv
+			}
+		}
+	}
+	return cl
 }
 
 func (w *World) contractFor(name string) *Contract {
@@ -152,6 +174,62 @@ func ApplySchemas(w *World, schemas []string, prop string) {
 			}
 		}
 	}
+	// frozen fields: no function changes them on objects that existed when it was entered
+	// (the protect mechanism, applied to every function whose mod-set contains the field)
+	for _, fz := range w.Spec.Frozen {
+		if !hasProp(strings.Split(fz[2], ","), prop) {
+			continue
+		}
+		h := "H$" + fz[0] + "$" + fz[1]
+		// API calls re-entered from a caller-supplied callback obey the same rule (they are checked for it)
+		w.CallbackProtect = append(w.CallbackProtect, h)
+		for _, f := range w.FnAll {
+			n := w.FnName(f)
+			if ct := w.Spec.Contracts[n]; ct != nil && ct.Trusted {
+				continue
+			}
+			if !w.modsets[f][h] {
+				continue
+			}
+			c := w.contractFor(n)
+			dup := false
+			for _, x := range c.Protect {
+				if x == h {
+					dup = true
+				}
+			}
+			if !dup {
+				c.Protect = append(c.Protect, h)
+			}
+			if !hasProp(c.ProtectProps, prop) {
+				c.ProtectProps = append(c.ProtectProps, prop)
+			}
+		}
+	}
+	// fieldinv declarations: every function storing to the field carries the obligation
+	for _, fi := range w.Spec.FieldInvs {
+		if !hasProp(strings.Split(fi[3], ","), prop) {
+			continue
+		}
+		for _, f := range w.FnAll {
+			touches := false
+			for _, b := range f.Blocks {
+				for _, ins := range b.Instrs {
+					if x, ok := ins.(*ssa.Store); ok {
+						if fa, ok := x.Addr.(*ssa.FieldAddr); ok {
+							if st, key, local := w.localStruct(deref(fa.X.Type())); st != nil && local && key == fi[0] && st.Field(fa.Field).Name() == fi[1] {
+								touches = true
+							}
+						}
+					}
+				}
+			}
+			if touches {
+				c := w.contractFor(w.FnName(f))
+				c.ExtraProps = append(c.ExtraProps, prop)
+			}
+		}
+	}
 	props := []string{prop}
 	for _, s := range schemas {
 		switch {
@@ -265,6 +343,46 @@ func ApplySchemas(w *World, schemas []string, prop string) {
 				// every reachable function carries the (possibly empty) promise, so callers may rely on it
 				c.Protect = append(c.Protect, hs...)
 				c.ProtectProps = append(c.ProtectProps, props...)
+			}
+		}
+	}
+	pullCallers(w, prop)
+}
+
+// pullCallers: a precondition tagged with the property is an obligation at every static
+// call site in the package, so every caller of such a function is brought under the check
+// (calls through interfaces and function values are covered by the subtype/param rules).
+func pullCallers(w *World, prop string) {
+	need := map[string]bool{}
+	for n, c := range w.Spec.Contracts {
+		if c.Trusted || strings.Contains(n, "/param:") {
+			continue
+		}
+		for _, cl := range c.Requires {
+			if hasProp(cl.Props, prop) {
+				if id, ok := cl.Expr.(*SIdent); ok && id.Name == "true" {
+					continue
+				}
+				need[n] = true
+			}
+		}
+	}
+	if len(need) == 0 {
+		return
+	}
+	for _, f := range w.FnAll {
+		for _, b := range f.Blocks {
+			for _, ins := range b.Instrs {
+				ci, ok := ins.(ssa.CallInstruction)
+				if !ok {
+					continue
+				}
+				if name, _ := w.calleeName(ci.Common()); need[name] {
+					c := w.contractFor(w.FnName(f))
+					if !hasProp(c.ExtraProps, prop) {
+						c.ExtraProps = append(c.ExtraProps, prop)
+					}
+				}
 			}
 		}
 	}
